@@ -91,6 +91,7 @@ def run(ctx):
                        "P-field 0x40 must be accepted; time code ID other than 100b or a 24-bit day segment must be refused; "
                        "other P-field bits are not judged", "non-whole-millisecond datetimes / timedeltas may floor or round up",
                        "only non-negative timedeltas"]
+    ctx.symbolic_laws(['Law_CdsEnc', 'Law_CdsAdd'] + (['Law_CdsCalendar'] if ctx.thorough else []))
     ctx.replay_vectors("MC_Codec", "MC_Codec.cfg", perform, "grid", classify, consts='CONSTANT Area = "cds"',
                        need_actions=("PickVector",))
     ctx.validate_events(events(ctx), "calls", classify, shard=4000)
